@@ -280,6 +280,10 @@ pub struct ShadowCase {
     pub inner: u8,
     pub post: u8,
     pub nest: u8,
+    /// the scope registers NO evaluator of its own: the steps inside use the run's evaluator from 1 + nest scopes below,
+    /// and it is back in the root scope afterwards
+    #[serde(default)]
+    pub plain: bool,
 }
 
 #[derive(Tid)]
@@ -325,7 +329,7 @@ impl Check for ShadowCheck {
         "C06/shadowed-evaluator".into()
     }
     fn classes(&self) -> &'static [&'static str] {
-        &["population >= 2", "evaluation step at the top level after the scope", "scope nested below further scopes", "non-default identifier"]
+        &["population >= 2", "evaluation step at the top level after the scope", "scope nested below further scopes", "non-default identifier", "scope without an evaluator of its own"]
     }
     fn oracle(&self, c: &ShadowCase) -> Outcome {
         let mut cl = 0;
@@ -365,7 +369,12 @@ fn shadow_oracle<I: Identifier>(c: &ShadowCase, cl: &mut u64) -> Result<(), Fail
     reg.insert(Random::new(5));
     let mut state: State<'static, RealP> = reg.into();
     let step = || -> Box<dyn mahf::Component<RealP>> { PopulationEvaluator::<I>::new_with() };
-    let mut scoped: Box<dyn mahf::Component<RealP>> = Scope::new_with(shadow_init::<I>, (0..inner).map(|_| step()).collect::<Vec<_>>(), shadow_merge);
+    let mut scoped: Box<dyn mahf::Component<RealP>> = if c.plain {
+        *cl |= 16;
+        Scope::new_with(|_| Ok(()), (0..inner).map(|_| step()).collect::<Vec<_>>(), shadow_merge)
+    } else {
+        Scope::new_with(shadow_init::<I>, (0..inner).map(|_| step()).collect::<Vec<_>>(), shadow_merge)
+    };
     for _ in 0..nest {
         scoped = Scope::new_with(|_| Ok(()), vec![scoped], shadow_merge);
     }
@@ -386,7 +395,7 @@ fn shadow_oracle<I: Identifier>(c: &ShadowCase, cl: &mut u64) -> Result<(), Fail
     }
     let got = seen.lock().unwrap().clone();
     let mut want = vec![('O', n); pre];
-    want.extend(vec![('I', n); inner]);
+    want.extend(vec![(if c.plain { 'O' } else { 'I' }, n); inner]);
     want.extend(vec![('O', n); post]);
     ensure_that!(
         got == want,
@@ -641,8 +650,8 @@ pub fn run_all(ctx: &mut Ctx, replay: Option<&Path>) {
     ctx.regressions(&sh);
     ctx.exhaustive(
         &sh,
-        "population 0-3 x identifier Global/A/B x 0-2 steps before x 1-3 steps inside the scope that registers its own evaluator x 0-3 steps after x 0-2 enclosing plain scopes",
-        (0u8..4).flat_map(|n| (0u8..3).flat_map(move |id| (0u8..3).flat_map(move |pre| (0u8..3).flat_map(move |inner| (0u8..4).flat_map(move |post| (0u8..3).map(move |nest| ShadowCase { n, id, pre, inner, post, nest })))))),
+        "population 0-3 x identifier Global/A/B x 0-2 steps before x 1-3 steps inside the scope that registers its own evaluator x 0-3 steps after x 0-2 enclosing plain scopes x {scope registers its own evaluator, scope uses the run's evaluator}",
+        (0u8..4).flat_map(|n| (0u8..3).flat_map(move |id| (0u8..3).flat_map(move |pre| (0u8..3).flat_map(move |inner| (0u8..4).flat_map(move |post| (0u8..3).flat_map(move |nest| [false, true].into_iter().map(move |plain| ShadowCase { n, id, pre, inner, post, nest, plain }))))))),
     );
     let per = ctx.tier.pick(150, 1500);
     for k in 0..21 {
